@@ -66,6 +66,7 @@ def hungarian_max(W):
     return ("opt", asg, [-u[i] for i in range(1, n + 1)], [-v[j] for j in range(1, n + 1)])
 
 class C04(Prop):
+    layouts = True
     parallel = 16    # thorough tier: 4^9 matrices, each solved in a forked, killable worker
     pid = "C04"
     sources = ["socialchoicekit/deterministic_allocation.py"]
@@ -102,6 +103,11 @@ class C04(Prop):
                     row.append(x)
                 W.append(row)
             c = dict(entry="MaximumWeightMatching.scf", family=kind, W=W, zi=bool(i % 2), itype=(kind == "int" and i % 3 == 0))
+            if i % 3 == 1:        # the rule object is reused: complete and other NaN-pattern profiles of the same size first
+                def other():
+                    return [[(None if rng.random() < 0.2 else float(rng.randint(0, 9))) for _ in range(n)] for _ in range(n)]
+                c["prelude"] = [[[float(rng.randint(1, 9)) for _ in range(n)] for _ in range(n)]] + [other() for _ in range(rng.randint(0, 2))]
+                c["family"] = kind + "_reuse"
             if kind == "int":     # integer-valued profiles in every integer encoding a caller may hold them in (IntegerValuationProfile)
                 c["itype"] = ["int64", None, "uint8", "int32", "uint16", None, "uint32", "int8", "uint64", "int16"][i % 10]
             yield c
@@ -119,12 +125,18 @@ class C04(Prop):
         if case.get("itype"):
             A = np.array(case["W"]).astype(int if case["itype"] is True else case["itype"])
         else:
-            A = np.array([[np.nan if x is None else x for x in row] for row in case["W"]], dtype=float)
+            A = lay(np.array([[np.nan if x is None else x for x in row] for row in case["W"]], dtype=float), case.get("layout"))
         A0 = A.copy()
         def go():
             from socialchoicekit.profile_utils import IntegerValuationProfile
             prof = IntegerValuationProfile.of(A) if (case.get("itype") and case["itype"] is not True) else ValuationProfile.of(A)
-            out = MaximumWeightMatching(zero_indexed=case["zi"]).scf(prof)
+            rule = MaximumWeightMatching(zero_indexed=case["zi"])
+            for pre in case.get("prelude", []):      # history: the same rule object solved other profiles (of the same size) before
+                try:
+                    rule.scf(ValuationProfile.of(np.array([[np.nan if x is None else x for x in row] for row in pre], dtype=float)))
+                except Exception:  # noqa
+                    pass
+            out = rule.scf(prof)
             return [int(x) for x in np.asarray(out).tolist()], (A.tobytes() != A0.tobytes())
         # forked worker: the solver is C/C++ code, a hang there cannot be interrupted by a Python-level alarm
         r = supervised_fork(go, self.deadline)
